@@ -164,9 +164,13 @@ class BaseProp:
                 return byid[c["id"]]
         return None
 
-    def shrink(self, case, descr, wd, rounds=8):
+    def shrink(self, case, descr, wd, rounds=8, budget_s=45):
+        import time
+        t0 = time.time()
         cur, cur_d = case, descr
         for _ in range(rounds):
+            if time.time() - t0 > budget_s:
+                break
             cands = self.shrink_candidates(cur)
             if not cands:
                 break
